@@ -264,6 +264,7 @@ def step(w, action, part, kind, path):
     after_dump = w.dump()
     after = ref_store.objects(after_dump)
     part.count('transitions')
+    part._alone = (it.status, it.reason, it.message, {u: norm(o) for u, o in after.items()})
     ctx = {'kind': kind, 'path': [list(a) for a in path + [action]]}
     akey = "%s|%s|%s" % (action[0], action[1] if action[1] in MULTI or action[1] == 'Sensitive'
                          else 'other:' + action[1], _selk(action))
@@ -318,6 +319,61 @@ def step(w, action, part, kind, path):
     return json.dumps({u: norm(o) for u, o in after.items()}, sort_keys=True, default=str)
 
 
+EMBEDDINGS = ('continue-then-create', 'create-then')
+
+
+def embed(w, action, part, kind, path, how):
+    """Differential oracle without a hand-written expectation: the same action, on a clone of the
+    same store, sent inside a batch together with a Create (which commits), must get the same
+    result and leave objects 1 and 2 exactly as the stand-alone request left them.
+      continue-then-create: [action, Create] with Batch Error Continuation Option = Continue - a
+                            failed action must not leave work behind that the next item commits;
+      create-then:          [Create, action] - an earlier item of the batch must not change what
+                            the action does."""
+    alone = getattr(part, '_alone', None)
+    if alone is None:
+        return
+    before = ref_store.objects(w.dump())
+    try:
+        version, item, resolved = materialise(action, before)
+    except Skip:
+        return
+    W.CLOCK.now = W.T0 + 10 + len(path)
+    create = W.p_create(W.sym_attrs(masks=[CUM.ENCRYPT]))
+    try:
+        if how == 'continue-then-create':
+            r = w.do(version, [item, create], user=action[4],
+                     error_option=E.BatchErrorContinuationOption.CONTINUE)
+            mine, other = 0, 1
+        else:
+            r = w.do(version, [create, item], user=action[4])
+            mine, other = 1, 0
+    except (W.exceptions.KmipError, W.exceptions.AttributeNotSupported,
+            W.exceptions.VersionNotSupported):
+        return
+    part.count('batch_embeddings')
+    ctx = {'kind': kind, 'path': [list(a) for a in path + [action]], 'embed': how}
+    akey = "%s|%s|%s" % (action[0], action[1] if action[1] in MULTI or action[1] == 'Sensitive'
+                         else 'other:' + action[1], _selk(action))
+    if len(r.items) != 2 or not r.items[other].ok():
+        part.violation("embedding|create-failed|%s|%s" % (how, akey),
+                       "batch %s around %s: answers %s (the Create item must succeed)" % (
+                           how, action, r.brief()), ctx)
+        return
+    it = r.items[mine]
+    if (it.status, it.reason, it.message) != alone[:3]:
+        part.violation("embedding|result-differs|%s|%s" % (how, akey),
+                       "%s answered %s inside batch %s but (%s, %s, %s) as a request of its own" % (
+                           action, it.brief(), how, alone[0], alone[1], alone[2]), ctx)
+    after = {u: norm(o) for u, o in ref_store.objects(w.dump()).items()}
+    for u in ('1', '2'):
+        if after.get(u) != alone[3].get(u):
+            part.violation("embedding|effect-differs|%s|%s" % (how, akey),
+                           "%s (answer %s) inside batch %s leaves object %s as %s; as a request of its "
+                           "own it leaves %s" % (action, it.brief(), how, u, _brief(after.get(u, {})),
+                                                 _brief(alone[3].get(u, {}))), ctx)
+
+
 def _selk(action):
     form, name, sel, val, user = action
     return "%s/%s/%s" % (sel, val if name in MULTI else ('v' if val is not None else '-'), user)
@@ -335,7 +391,7 @@ def _diff(b, a):
     return '; '.join(out) or 'raw rows only (counters/ids)'
 
 
-def bfs(kind, depth, first_actions, part):
+def bfs(kind, depth, first_actions, part, embeddings=1, embed_all=False):
     tmp = tempfile.mkdtemp(prefix='verif-c15-', dir=W.SCRATCH_BASE)
     try:
         w0 = build_store(kind)
@@ -351,7 +407,12 @@ def bfs(kind, depth, first_actions, part):
                 for action in (first_actions if d == 0 else ACTIONS):
                     w = W.World(db_from=dbfile)
                     try:
+                        part._alone = None
                         k = step(w, action, part, kind, path)
+                        if k is not None and (d == 0 or embed_all):
+                            for how in EMBEDDINGS[:embeddings]:
+                                with W.World(db_from=dbfile) as w2:
+                                    embed(w2, action, part, kind, path, how)
                         if k is not None and k not in seen:
                             seen.add(k)
                             if d + 1 < depth:
@@ -370,9 +431,9 @@ def bfs(kind, depth, first_actions, part):
 
 
 def _worker(task):
-    kind, depth, firsts = task
+    kind, depth, firsts, embed_all = task
     part = Part()
-    bfs(kind, depth, firsts, part)
+    bfs(kind, depth, firsts, part, embeddings=2, embed_all=embed_all)
     part.sample({'kind': kind, 'depth': depth, 'first_actions': [list(map(str, a)) for a in firsts[:2]]})
     out = part.as_dict()
     out['out'] = sorted(part.counters.pop('_out', set()), key=repr)
@@ -385,11 +446,11 @@ def run(tier, seed):
     main_depth = 2 if tier == 'quick' else 3
     n = 32
     for i in range(n):
-        tasks.append(('SymmetricKey', main_depth, ACTIONS[i::n]))
+        tasks.append(('SymmetricKey', main_depth, ACTIONS[i::n], tier != 'quick'))
     for k in KINDS[1:] + ['SymmetricKey:nomask', 'SecretData:nomask']:
         d = 1 if tier == 'quick' else 2
         for i in range(4):
-            tasks.append((k, d, ACTIONS[i::4]))
+            tasks.append((k, d, ACTIONS[i::4], tier != 'quick'))
     outs = set()
     for part in pmap(_worker, tasks):
         outs.update(repr(o) for o in part.pop('out', []))
@@ -400,14 +461,19 @@ def run(tier, seed):
         rep.harness_error("vacuous: %d outcome classes, %d succeeding" % (len(outs), succ))
     return rep.finish(dict(
         states=rep.counters.get('states', 0), transitions=t, traces_validated_against_impl=t,
-        max_depth=main_depth, actions=len(ACTIONS), object_kinds=len(KINDS),
+        max_depth=main_depth, actions=len(ACTIONS),
+        batch_embeddings=rep.counters.get('batch_embeddings', 0), object_kinds=len(KINDS),
         skipped_unconstructible=rep.counters.get('skipped_unconstructible', 0),
         distinct_outcome_classes=len(outs), succeeding_outcome_classes=succ, exhaustive=True,
         explanation="BFS with deduplication on the full attribute snapshot of the whole store "
                     "(no abstraction: merged states have identical attribute content); states are "
                     "counted per first-action subtree; every transition is one real request, judged "
                     "by the attribute-store model on a raw-SQLite snapshot, the frame condition on "
-                    "every other object and GetAttributes agreement",
+                    "every other object and GetAttributes agreement; batch_embeddings = the same "
+                    "action re-run on a clone of the same state inside [action, Create] (Continue) "
+                    "and [Create, action] batches, required to answer and to leave objects 1 and 2 "
+                    "exactly as the stand-alone request did (quick: from the root state; thorough: "
+                    "from every reached state)",
     ), assumptions=[
         "a call that addresses no existing instance (index out of range or negative, current value "
         "not present) must fail; the 2.0 reference form of DeleteAttribute removes all instances",
@@ -421,9 +487,16 @@ def replay(doc):
     w = build_store(doc['kind'])
     try:
         path = []
-        for a in doc['path']:
-            a = tuple(a)
-            step(w, a, part, doc['kind'], path)
+        acts = [tuple(a) for a in doc['path']]
+        for i, a in enumerate(acts):
+            if doc.get('embed') and i == len(acts) - 1:
+                with w.clone() as w2:
+                    step(w2, a, part, doc['kind'], path)
+                part.violations[:] = []
+                part._keys.clear()
+                embed(w, a, part, doc['kind'], path, doc['embed'])
+            else:
+                step(w, a, part, doc['kind'], path)
             path.append(a)
         v = part.violations
         return bool(v), '\n'.join("%s: %s" % (k, t) for k, t, _ in v) or 'no violation'
